@@ -380,6 +380,153 @@ def _all_branch_writes(fn: ast.FunctionDef) -> List[ast.JoinedStr]:
     return out
 
 
+# -- any / all over for-each / for-range: the helper each of the four cases is written with --
+class _Terminated(Exception):
+    pass
+
+
+def _cap_camel(name: str) -> str:
+    return "".join(p.capitalize() for p in name.split("_") if p)
+
+
+def _q_val(e: ast.expr, env: Dict[str, List[str]]) -> List[str]:
+    """Possible texts of an expression; anything not built from literals is the operand `that`."""
+    e = _unwrap_stripped(e)
+    if isinstance(e, ast.Constant) and isinstance(e.value, str):
+        return [e.value]
+    if isinstance(e, ast.Name):
+        if set(e.id) == {"I"}:
+            return [" "]
+        return env.get(e.id, [" that "])
+    if isinstance(e, ast.Call):
+        f = ast.unparse(e.func)
+        if f == "indent_but_first_line" and e.args:
+            return _q_val(e.args[0], env)
+        if f.endswith("naming.function_name") and len(e.args) == 1:
+            a = e.args[0]
+            if isinstance(a, ast.Call) and ast.unparse(a.func) == "Identifier" and len(a.args) == 1:
+                inner = _q_val(a.args[0], env)
+                if all(" that " not in x for x in inner):
+                    return [_cap_camel(x) for x in inner]
+            raise TranslateError(f"naming of a computed identifier: {ast.unparse(e)[:80]}")
+        return [" that "]
+    if isinstance(e, ast.JoinedStr):
+        alts = [""]
+        for v in e.values:
+            if isinstance(v, ast.Constant):
+                parts = [str(v.value)]
+            elif isinstance(v, ast.FormattedValue):
+                parts = _q_val(v.value, env)
+            else:
+                raise TranslateError("unexpected f-string part")
+            alts = [a + p for a in alts for p in parts]
+            if len(alts) > 64:
+                raise TranslateError("too many alternatives in a quantifier template")
+        return alts
+    return [" that "]
+
+
+def _q_join(env, branches, scen, out) -> None:
+    """Run alternative branches (undecided condition) and join the environments."""
+    results = []
+    for branch in branches:
+        e2 = {k: list(v) for k, v in env.items()}
+        try:
+            _q_exec(branch, e2, scen, out, False)
+            results.append(e2)
+        except _Terminated:
+            pass  # the branch returned: it does not reach the join
+    if not results:
+        raise _Terminated()
+    keys = set().union(*[set(r) for r in results])
+    env.clear()
+    for k in keys:
+        env[k] = _dedup([x for r in results for x in r.get(k, [" that "])])
+
+
+def _q_exec(stmts, env, scen, out, definite: bool) -> None:
+    """Run the statements for one (node kind, generator kind); collects returned templates in
+    ``out``; raises _Terminated after a return on a definite path."""
+    for st in stmts:
+        if isinstance(st, (ast.Assign, ast.AnnAssign)):
+            if isinstance(st, ast.AnnAssign):
+                if st.value is None or not isinstance(st.target, ast.Name):
+                    continue
+                targets, value = [st.target], st.value
+            else:
+                targets, value = st.targets, st.value
+            for t in targets:
+                if isinstance(t, ast.Name):
+                    env[t.id] = _q_val(value, env)
+                elif isinstance(t, ast.Tuple):
+                    for el in t.elts:
+                        if isinstance(el, ast.Name):
+                            env[el.id] = [" that "]
+        elif isinstance(st, ast.If):
+            verdict = None
+            t = st.test
+            if (isinstance(t, ast.Call) and isinstance(t.func, ast.Name) and t.func.id == "isinstance" and len(t.args) == 2):
+                subj, klass = ast.unparse(t.args[0]), ast.unparse(t.args[1])
+                if subj == "node" and klass in ("parse_tree.Any", "parse_tree.All"):
+                    verdict = (klass == "parse_tree.Any") == scen[0]
+                elif subj == "node.generator" and klass in ("parse_tree.ForEach", "parse_tree.ForRange"):
+                    verdict = (klass == "parse_tree.ForRange") == scen[1]
+            if verdict is True:
+                _q_exec(st.body, env, scen, out, definite)
+            elif verdict is False:
+                _q_exec(st.orelse, env, scen, out, definite)
+            else:
+                _q_join(env, [st.body, st.orelse], scen, out)
+        elif isinstance(st, ast.Try):
+            _q_exec(st.body, env, scen, out, definite)
+            _q_exec(st.finalbody, env, scen, out, definite)
+        elif isinstance(st, (ast.For, ast.While, ast.With)):
+            _q_join(env, [st.body, []], scen, out)
+        elif isinstance(st, ast.Return):
+            v = st.value
+            if isinstance(v, ast.Tuple) and len(v.elts) == 2:
+                a, b = v.elts
+                if isinstance(a, ast.Constant) and a.value is None:
+                    if definite:
+                        raise _Terminated()
+                    continue  # an error path
+                out.extend(_q_val(a, env))
+                raise _Terminated()
+            raise TranslateError(f"unexpected return in the quantifier transformer: {ast.unparse(st)[:100]}")
+        # Expr, Assert, Pass, Raise: nothing to track
+
+
+def quantifier_table(lang: str, cls: ast.ClassDef) -> List[Tuple[bool, bool, bool, bool]]:
+    """(node is Any, generator is ForRange, emitted helper reads as any, ... as a range) for
+    every template `_transform_any_or_all` can return in each of the four cases."""
+    fn = _method(cls, "_transform_any_or_all")
+    if fn is None:
+        raise TranslateError(f"{lang}: no _transform_any_or_all")
+    for name, want in (("transform_any", "Any"), ("transform_all", "All")):
+        m = _method(cls, name)
+        if m is None or "self._transform_any_or_all(node)" not in ast.unparse(m):
+            raise TranslateError(f"{lang}: {name} does not delegate to _transform_any_or_all")
+    rows = []
+    for any_ in (True, False):
+        for range_ in (False, True):
+            out: List[str] = []
+            try:
+                _q_exec(fn.body, {}, (any_, range_), out, True)
+            except _Terminated:
+                pass
+            if not out:
+                raise TranslateError(f"{lang}: no template for any={any_} range={range_}")
+            for text in _dedup(out):
+                try:
+                    t = xt.normalize(lang, xt.parse_expr(lang, text))
+                except xt.TextError as e:
+                    raise TranslateError(f"{lang}: quantifier template {text!r} is not understood: {e}")
+                if not (isinstance(t, tuple) and t[0] in ("any", "all") and t[2][0] in ("each", "range")):
+                    raise TranslateError(f"{lang}: quantifier template {text!r} reads as {t[0]!r}")
+                rows.append((any_, range_, t[0] == "any", t[2][0] == "range"))
+    return _dedup(rows)
+
+
 # ----------------------------------------------------------------------------------------
 def extract_lang(lang: str) -> Dict[str, Any]:
     tree = parse(f"aas_core_codegen/{lang}/transpilation.py")
@@ -398,6 +545,7 @@ def extract_lang(lang: str) -> Dict[str, Any]:
     return {"comparison_map": cmap,
             "cmp_templates": cmp_templates,
             "value_eq_templates": list(VALUE_EQ.get(lang, [])),
+            "quantifier_table": quantifier_table(lang, cls),
             "not_shapes": not_shapes(lang, fn_not),
             "impl_shapes": impl_shapes(lang, fn_imp),
             "and_shapes": a, "or_shapes": o}
@@ -438,6 +586,10 @@ def gen_operator_tables() -> str:
         out.append(f"Definition {lang}_value_eq_templates : list (bool * list text) := ["
                    + "; ".join(f"({'true' if neg else 'false'}, [" + "; ".join(_t(h) for h in hs) + "])"
                                for neg, hs in d["value_eq_templates"]) + "].")
+        out.append("(* (node is Any, generator is ForRange, emitted helper is an `any`, emitted iteration is a range) *)")
+        out.append(f"Definition {lang}_quantifier_table : list (bool * bool * bool * bool) := ["
+                   + "; ".join("(" + ", ".join("true" if x else "false" for x in row) + ")"
+                               for row in d["quantifier_table"]) + "].")
         for key in ("not_shapes", "impl_shapes", "and_shapes", "or_shapes"):
             out.append(f"Definition {lang}_{key} : list shape := [\n  "
                        + ";\n  ".join(_shape(s) for s in d[key]) + "].")
